@@ -114,7 +114,7 @@ class Run:
         self.states = set()
 
 
-def lockstep(ops, obs, forced, upto=None, pid=PID, collect=None):
+def lockstep(ops, obs, forced, upto=None, pid=PID, collect=None, base=frozenset()):
     """Run the model along the observation.  forced: {op index: quirk name}.  Returns a Run."""
     m = Model()
     run = Run()
@@ -132,7 +132,7 @@ def lockstep(ops, obs, forced, upto=None, pid=PID, collect=None):
                 run.stopped = 'diverged-after-deviation:' + sorted(sorted(v)[0] for v in forced.values())[0]
                 return run
             raise Harness('script uses dead handle %s at op %d (%s)' % (ke, i, op.render()))
-        m.quirk = set(forced[i]) if i in forced else set()
+        m.quirk = (set(forced[i]) | set(base)) if i in forced else set(base)
         try:
             exp = m.apply(rop)
         except Undecided as u:
@@ -144,7 +144,7 @@ def lockstep(ops, obs, forced, upto=None, pid=PID, collect=None):
                 return run
             raise
         finally:
-            m.quirk = set()
+            m.quirk = set(base)
         if forced and sorted(set(exp.kills)) != sorted(op.kills) and exp.codes is None:
             # the script's "!n" directives were computed on the W3C path; after a re-synchronised deviation they no longer
             # describe what the library releases here, so the driver's handle table cannot be trusted any further
@@ -222,13 +222,13 @@ def lockstep(ops, obs, forced, upto=None, pid=PID, collect=None):
     return run
 
 
-def compare_case(ops, obs):
+def compare_case(ops, obs, pid=PID, base=frozenset()):
     """-> (Run of the final pass, [(key, what, detail)] violations)"""
     forced = {}
     viol = []
     states = set()
     for _ in range(64):
-        run = lockstep(ops, obs, forced, collect=states)
+        run = lockstep(ops, obs, forced, collect=states, pid=pid, base=base)
         mm = run.mismatch
         if mm is None:
             break
@@ -239,19 +239,19 @@ def compare_case(ops, obs):
             for combo in combos:
                 f2 = dict(forced)
                 f2[mm.i] = combo
-                r2 = lockstep(ops, obs, f2, upto=mm.i)
+                r2 = lockstep(ops, obs, f2, upto=mm.i, pid=pid, base=base)
                 if r2.mismatch is None and (r2.stopped is None or r2.stopped.startswith('undecided') or r2.stopped.startswith('diverged')):
                     forced = f2
                     for q in sorted(combo):
-                        viol.append(('%s:deviation:%s' % (PID, q), 'real library deviates from the DOM text in the way described by quirk "%s" (op %d: %s)' % (q, mm.i, mm.op.render()),
+                        viol.append(('%s:deviation:%s' % (pid, q), 'real library deviates from the DOM text in the way described by quirk "%s" (op %d: %s)' % (q, mm.i, mm.op.render()),
                                      {'op_index': mm.i, 'op': mm.op.render(), 'w3c_mismatch': mm.direction, 'detail': _short(mm.detail)}))
                     explained = True
                     break
         if not explained:
-            viol.append((mm.key(), '%s at op %d: %s' % (mm.direction, mm.i, mm.op.render()), {'op_index': mm.i, 'op': mm.op.render(), 'class': mm.exp.cls if mm.exp else '', 'detail': _short(mm.detail)}))
+            viol.append((mm.key(pid), '%s at op %d: %s' % (mm.direction, mm.i, mm.op.render()), {'op_index': mm.i, 'op': mm.op.render(), 'class': mm.exp.cls if mm.exp else '', 'detail': _short(mm.detail)}))
             break
     for s in run.soft:
-        viol.append((s.key(), '%s at op %d: %s' % (s.direction, s.i, s.op.render()), {'op_index': s.i, 'op': s.op.render(), 'detail': _short(s.detail)}))
+        viol.append((s.key(pid), '%s at op %d: %s' % (s.direction, s.i, s.op.render()), {'op_index': s.i, 'op': s.op.render(), 'detail': _short(s.detail)}))
     run.states = states
     return run, viol
 
@@ -278,10 +278,10 @@ def case_ops(c):
     return [ScriptOp.from_json(j) for j in c.meta['ops']]
 
 
-def gen_random(seed, shard, n, nops, tail_prob, chk=1):
+def gen_random(seed, shard, n, nops, tail_prob, chk=1, pid=PID, views=False):
     cases = []
     for k in range(n):
-        g = domref.Gen(core.rng(seed, PID, 'random', shard, k), nops=nops)
+        g = domref.Gen(core.rng(seed, pid, 'random', shard, k), nops=nops, views=views)
         ops = g.script(tail_prob=tail_prob)
         cases.append(mk_case('r%d_%d' % (shard, k), ops, chk=chk, cls='random'))
     return cases
@@ -452,9 +452,9 @@ setIdNode n1 n2 1''',
 }
 
 
-def gen_specials():
+def gen_specials(table=None):
     cases = []
-    for name, text in SPECIALS.items():
+    for name, text in (table or SPECIALS).items():
         ops = domref.parse_script(text)
         full = _rebuild(ops)
         cases.append(mk_case('sp_' + name, full if full is not None else ops, cls='special:' + name))
@@ -487,20 +487,23 @@ def attach_observed_dump(binary, witness):
 def run_shard(args):
     binary, kind, seed, shard, nshards, n, nops, tail_prob, depth = args[:9]
     chk = args[9] if len(args) > 9 else 1
+    opts = args[10] if len(args) > 10 else {}
+    pid = opts.get('pid', PID)
+    base = frozenset(opts.get('base', ()))
     t0 = time.time()
     out = dict(evaluations=0, ops=0, violations=[], harness=[], distinct=[], samples=[], classes={}, codes={}, stopped={}, crashes=[],
                skipped=0, alphabet=0, exc_expected=0, states=set(), kind=kind, scripts=0)
     if kind == 'random':
-        cases = gen_random(seed, shard, n, nops, tail_prob, chk)
+        cases = gen_random(seed, shard, n, nops, tail_prob, chk, pid, bool(opts.get('views')))
     elif kind == 'special':
-        cases = gen_specials()
+        cases = gen_specials(opts.get('specials'))
     else:
         cases, out['skipped'], out['alphabet'] = gen_exhaustive(depth, shard, nshards)
     out['scripts'] = len(cases)
     tgen = time.time() - t0
     # a hang costs one batch time-out: keep batches small enough for that to stay around a minute
     recs = {}
-    CH = 600 if kind != 'special' else 1      # special cases one per process: one of them is a known endless loop
+    CH = 600 if kind != 'special' else 4      # special cases in small batches (some of them used to crash or loop)
     for b in range(0, len(cases), CH):
         recs.update(core.run_shard(binary, cases[b:b + CH], tag='c13%s%d' % (kind[0], shard), per_case_timeout=4.0, min_batch_timeout=45.0, env=_env_for(binary)))
     trun = time.time() - t0 - tgen
@@ -521,7 +524,7 @@ def run_shard(args):
             out['harness'].append('%s: %s' % (c.id, xl[0]))
             continue
         try:
-            run, viol = compare_case(ops, obs)
+            run, viol = compare_case(ops, obs, pid, base)
         except Harness as h:
             out['harness'].append('%s: %s' % (c.id, h))
             continue
@@ -553,7 +556,7 @@ def run_shard(args):
             if r2 is not None and r2.complete and not r2.crash and not r2.hang:
                 dobs, xl = parse_obs(r2.lines)
                 try:
-                    _, viol2 = compare_case(case_ops(c), dobs)
+                    _, viol2 = compare_case(case_ops(c), dobs, pid, base)
                     if viol2:
                         viol = viol2
                 except Harness:
@@ -584,7 +587,7 @@ def _rebuild(ops_nokill):
     return out
 
 
-def shrink(binary, case_json, key, max_rounds=14):
+def shrink(binary, case_json, key, max_rounds=14, pid=PID, base=frozenset()):
     c = core.Case.from_json(case_json)
     cur = [o for o in case_ops(c) if o.name != 'kill']
     chunk = max(1, len(cur) // 2)
@@ -616,7 +619,7 @@ def shrink(binary, case_json, key, max_rounds=14):
             else:
                 obs, xl = parse_obs(r.lines)
                 try:
-                    _, viol = compare_case(case_ops(cc), obs)
+                    _, viol = compare_case(case_ops(cc), obs, pid, base)
                 except Harness:
                     continue
                 k2 = [v[0] for v in viol]
@@ -644,46 +647,29 @@ TIERS = {
 }
 
 
-def snapshot_binary(binary, flavour='asan'):
-    """Private copy of the driver and of the library it loads.  The build cache is shared: another check may re-link
-    libxerces-c while this one is still running driver processes (seen: "file too short" / "invalid ELF header").
-    Returns (binary path, env for run_shard, directory to remove afterwards)."""
-    import shutil
-    d = os.path.join(core.SCRATCH_ROOT, 'c13bin-%d-%d' % (os.getpid(), int(time.time() * 1000) % 1000000))
-    os.makedirs(d, exist_ok=True)
-    lib = os.path.join(build.libdir(flavour), build.LIBNAME)
-    with build._Lock('b-' + flavour):
-        shutil.copy2(lib, os.path.join(d, build.LIBNAME))
-        b2 = os.path.join(d, os.path.basename(binary))
-        shutil.copy2(binary, b2)
-    return b2, d
-
-
 def _env_for(binary):
-    return {'LD_LIBRARY_PATH': os.path.dirname(binary)}
+    return None
 
 
 def run(tier):
     ck = core.Check(PID, tier)
     cfg = TIERS.get(tier, TIERS['quick'])
-    binary0 = build.ensure('asan', parts=['domscript'])
-    binary, snapdir = snapshot_binary(binary0)
-    try:
-        return _run(ck, cfg, tier, binary)
-    finally:
-        import shutil
-        shutil.rmtree(snapdir, ignore_errors=True)
+    binary = build.ensure('asan', parts=['domscript'])
+    return _run(ck, cfg, tier, binary)
 
 
-def _run(ck, cfg, tier, binary):
+def _run(ck, cfg, tier, binary, opts=None):
+    opts = opts or {}
+    pid = ck.pid
+    base = frozenset(opts.get('base', ()))
     nsh = min(16, core.NCPU, int(os.environ.get('XV_JOBS', '16')))
-    jobs = [(binary, 'special', ck.seed, 0, 1, 0, 0, 0, 0)]
+    jobs = [(binary, 'special', ck.seed, 0, 1, 0, 0, 0, 0, 1, opts)]
     per = (cfg['nrandom'] + nsh - 1) // nsh
     for s in range(nsh):
-        jobs.append((binary, 'random', ck.seed, s, nsh, per, cfg['nops'], 0.06, 0, cfg['chk']))
-    xsh = nsh if cfg['depth'] < 3 else nsh * 4
+        jobs.append((binary, 'random', ck.seed, s, nsh, per, cfg['nops'], cfg.get('tail', 0.06), 0, cfg['chk'], opts))
+    xsh = (nsh if cfg['depth'] < 3 else nsh * 4) if cfg['depth'] > 0 else 0
     for s in range(xsh):
-        jobs.append((binary, 'exhaustive', ck.seed, s, xsh, 0, 0, 0, cfg['depth']))
+        jobs.append((binary, 'exhaustive', ck.seed, s, xsh, 0, 0, 0, cfg['depth'], 1, opts))
     ck.note('running %d shards (%d random scripts x %d ops, exhaustive depth %d)' % (len(jobs), per * nsh, cfg['nops'], cfg['depth']))
     res = []
     with ProcessPoolExecutor(nsh) as ex:
@@ -720,14 +706,14 @@ def _run(ck, cfg, tier, binary):
             if key in (None, 'incomplete'):
                 ck.inconclusive.append('case %s did not complete: %s' % (c.id, tail))
             elif key == 'hang':
-                ck.violation('%s:hang:%s' % (PID, c.meta.get('class', '')), 'script did not terminate within the watchdog', {'case': cj})
+                ck.violation('%s:hang:%s' % (pid, c.meta.get('class', '')), 'script did not terminate within the watchdog', {'case': cj})
             else:
                 # memory errors: the sanitizer's error kind depends on where the stray access lands; key on the function
                 parts = key.split(':')
                 if parts[0] in ('asan', 'signal') and len(parts) >= 3:
-                    key = '%s:memory-error:%s' % (PID, ':'.join(parts[2:]))
+                    key = '%s:memory-error:%s' % (pid, ':'.join(parts[2:]))
                 else:
-                    key = '%s:%s' % (PID, key)
+                    key = '%s:%s' % (pid, key)
                 ck.violation(key, 'sanitizer/crash report while executing a DOM script', {'case': cj, 'report': text, 'last_lines': tail})
         for key, what, w in r['violations']:
             ck.violation(key, what, w)
@@ -735,14 +721,18 @@ def _run(ck, cfg, tier, binary):
     # shrink the first witness of every key (parallel, bounded); the pinned special cases are minimal already
     keys = [k for k in ck.violations if k in first_witness]
     is_special = lambda k: str((first_witness[k].get('meta') or {}).get('class', '')).startswith('special')
+    # witnesses of known findings are pinned in replays/ already: only NEW violations are shrunk
+    is_known = lambda k: any(kf.get('property') == ck.pid and kf.get('status') == 'known' and core._key_match(kf.get('key'), k) for kf in ck.known)
     if keys:
-        ck.note('shrinking %d witness(es)' % len(keys))
+        ck.note('%d violation key(s), %d new: attaching dumps / shrinking the new ones' % (len(keys), sum(1 for k in keys if not is_known(k))))
         from concurrent.futures import ThreadPoolExecutor
         def sh(k):
             try:
+                if is_known(k):
+                    return k, None
                 if 'expected_vs_observed' in ck.violations[k]['witness']:
                     attach_observed_dump(binary, ck.violations[k]['witness'])
-                return k, (None if is_special(k) else shrink(binary, first_witness[k], k))
+                return k, (None if is_special(k) else shrink(binary, first_witness[k], k, pid=pid, base=base))
             except Exception as e:          # shrinking is a convenience, never a verdict
                 return k, None
         with ThreadPoolExecutor(min(nsh, len(keys))) as ex:
@@ -750,8 +740,9 @@ def _run(ck, cfg, tier, binary):
                 if mc is not None:
                     ck.violations[k]['witness']['minimal_case'] = mc.to_json()
                     ck.violations[k]['witness']['minimal_script'] = domref.script_text(case_ops(mc))
-    ck.rule = ('random script that executed >= 10 compared operations of >= 4 kinds including >= 1 operation for which the model expects a '
-               'DOMException; distinct by hash of the (operation, outcome) sequence.  Exhaustive scripts are counted separately in coverage.')
+    ck.rule = opts.get('rule') or ('random script that executed >= 10 compared operations of >= 4 kinds including >= 1 operation for which the '
+                                   'model expects a DOMException; distinct by hash of the (operation, outcome) sequence.  Exhaustive scripts are '
+                                   'counted separately in coverage.')
     ck.cov['operations_compared'] = nops
     ck.cov['random_scripts'] = rnd_scripts
     ck.cov['exhaustive_scripts'] = exh_scripts
@@ -762,9 +753,9 @@ def _run(ck, cfg, tier, binary):
     ck.cov['exception_codes_observed'] = dict(sorted(codes.items()))
     ck.cov['comparison_stopped'] = dict(sorted(stopped.items()))
     ck.cov['distinct_tree_states_per_shard_sum'] = states
-    ck.assumptions = list(domref.ASSUMPTIONS)
+    ck.assumptions = list(domref.ASSUMPTIONS) + list(opts.get('assumptions', []))
     # targeted construct classes must have been exercised
-    need = ['ins:insert-ancestor', 'ins:foreign-document', 'ins:ref-not-child', 'ins:wrong-type-child', 'ins:read-only', 'app:fragment',
+    need = opts['need'] if 'need' in opts else ['ins:insert-ancestor', 'ins:insert-into-self', 'ins:foreign-document', 'ins:ref-not-child', 'ins:wrong-type-child', 'ins:read-only', 'app:fragment',
             'insertData:offset-out-of-range', 'splitText:offset-out-of-range', 'cE:invalid-name', 'cENS:invalid-qname', 'release:owned',
             'rem:not-a-child', 'setAttrNode:in-use']
     if tier in TIERS:
